@@ -110,7 +110,7 @@ let parse_seq (s : string) : obs list = List.map parse_outcome (split '|' s)
 
 (* ---- expected records of a generated C14 case ---- *)
 
-let parse_prec (s : string) : prec * reference list =
+let parse_prec (s : string) : prec * reference list option =
   match String.split_on_char ':' s with
   | id :: ac :: na :: de :: syms :: rows :: refs :: more ->
       let rows = List.map (fun r -> match String.split_on_char ',' r with
@@ -127,12 +127,35 @@ let parse_prec (s : string) : prec * reference list =
               { ref_local = n_of_int (int_of_string l); ref_xref = opt_str x; ref_title = opt_str t;
                 ref_link = opt_str k; ref_pmid = opt_str p }
           | _ -> failwith "ref") (String.split_on_char '/' refs) in
-      let (po, sep) = match more with
-        | [po; sep] -> (po = "1", (match opt_str sep with Some b -> b | None -> []))
-        | _ -> (false, bytes_of_string "  ") in
-      ({ p_id = opt_str id; p_ac = opt_str ac; p_na = opt_str na; p_de = opt_str de;
-         p_po = po; p_sep = sep;
-         p_syms = (if syms = "-" then [] else bytes_of_string syms); p_rows = rows }, refs)
+      let (po, sep, order) = match more with
+        | po :: sep :: rest ->
+            (po = "1", (match opt_str sep with Some b -> b | None -> []),
+             (match rest with [o] when o <> "-" && o <> "" -> Some (String.split_on_char ',' o) | _ -> None))
+        | _ -> (false, bytes_of_string "  ", None) in
+      let syms_b = if syms = "-" then [] else bytes_of_string syms in
+      let fld k v = match opt_str v with Some x -> [IField (k, x)] | None -> [] in
+      let matrix = if syms_b = [] then [] else [IMatrix (po, sep, syms_b, rows)] in
+      let rec string_of_n_dec n = string_of_int (int_of_n n) in
+      let ref_item (x : reference) =
+        IRef (bytes_of_string (string_of_n_dec x.ref_local), x.ref_xref,
+              (match x.ref_pmid with Some v -> [RX v] | None -> []) @
+              (match x.ref_title with Some v -> [RT v] | None -> []) @
+              (match x.ref_link with Some v -> [RL v] | None -> [])) in
+      let items = match order with
+        | None ->
+            List.concat_map (fun l -> if l = [] then [] else l @ [IXX])
+              [fld FAC ac; fld FID id; fld FNA na; fld FDE de; matrix]
+        | Some codes ->
+            List.concat_map (fun c -> match c with
+              | "A" -> fld FAC ac | "I" -> fld FID id | "N" -> fld FNA na | "D" -> fld FDE de
+              | "M" -> matrix | "X" -> [IXX]
+              | c when String.length c >= 2 && c.[0] = 'R' ->
+                  [ref_item (List.nth refs (int_of_string (String.sub c 1 (String.length c - 1))))]
+              | c when String.length c >= 2 && c.[0] = 's' ->
+                  let k = (match c.[1] with 'a' -> KBA | 's' -> KBS | 'f' -> KBF | _ -> KCO) in
+                  [ISkip (k, bytes_of_hex (String.sub c 2 (String.length c - 2)))]
+              | _ -> failwith "order") codes in
+      (items, (match order with None -> Some refs | Some _ -> None))
   | _ -> failwith ("bad record " ^ s)
 
 (* which observable of two records differs (diagnostics only) *)
@@ -210,7 +233,8 @@ let () =
                | recs, _ ->
                    let precs = List.map parse_prec (String.split_on_char ';' recs) in
                    let expected = List.map (fun (p, refs) ->
-                     let r = expected_record al p in { r with r_refs = refs }) precs in
+                     let r = expected_record al p in
+                     match refs with Some l -> { r with r_refs = l } | None -> r) precs in
                    if not (check_c14 expected first_seq) then begin
                      let want = List.map (fun r -> BRec (observe_record r)) expected @ [BEnd] in
                      let at = match first_diff first_seq want O with Some k -> int_of_nat k | None -> -1 in
